@@ -13,7 +13,22 @@ func Cmp(g *G, n int) []Program {
 			e = g.ExtremeExp()
 		}
 		neg := g.Bool()
+		// word-aligned family: the same top words, then one lower word from a small alphabet around the places where a
+		// 64-bit word comparison can go wrong (10^19 > 2^63: differences of two valid words do not fit an int64)
+		aligned := g.R.Intn(4) == 0
+		top := g.Digits(19 * g.Pick(1, 1, 2, 3))
 		for j, r := range regs {
+			if aligned {
+				low := g.PickS("", "", "9999999999999999999", "9223372036854775808", "9223372036854775807", "0000000000000000001",
+					"5000000000000000000", "9999999999999999998", "0776627963145224192")
+				mid := strings.Repeat("0", 19*g.Pick(0, 0, 1))
+				d := top
+				if low != "" {
+					d = top + mid + low
+				}
+				g.Load(r, neg, d, e, len(d)+g.Pick(0, 19), g.Mode())
+				continue
+			}
 			switch k := g.R.Intn(12); {
 			case k == 0:
 				g.LoadSpecial(r, "zero", g.Bool(), g.Pick(0, 5), g.Mode())
